@@ -161,7 +161,9 @@ def explore_parallel(ctx, task_fn, configs, p_bound_of, r_bound_of):
     if ctx.seed:
         import random
         random.Random(ctx.seed).shuffle(sub)
-    for st, kids, cfg, p, r in ctx.pmap(task_fn, sub, chunksize=max(1, len(sub) // (ctx.jobs * 8) or 1)):
+    # the subtrees with the largest remaining budget first, in small chunks, so that no worker is left with a long tail
+    sub.sort(key=lambda u: -(2 * u[2] + min(u[3], 4)))
+    for st, kids, cfg, p, r in ctx.pmap(task_fn, sub, chunksize=max(1, len(sub) // (ctx.jobs * 64) or 1)):
         total.merge(st)
     return total
 
